@@ -30,12 +30,28 @@ def term(i, kind="str", prio=None, assoc=None):
     return [name, kind, text, ch, prio, assoc]
 
 
+def abstract_of(g):
+    """The grammar as the user means it: [[rule name, [[symbol names of an alternative], ...]], ...]
+    (EMPTY contributes nothing).  Carried next to the text so that the grammar the compiler
+    builds can be compared with it."""
+    return [[name, [list(a["rhs"]) for a in alts]] for name, alts in g["rules"]]
+
+
 def render(g):
+    import zlib
+    # every fourth grammar (by content) is written with EMPTY references sprinkled between the
+    # symbols of some alternatives: they contribute nothing, the abstract grammar is the same
+    h = zlib.crc32(repr([(n, [a["rhs"] for a in alts]) for n, alts in g["rules"]]).encode())
+    srng = random.Random(h) if h % 4 == 0 else None
     out = []
     for name, alts in g["rules"]:
         parts = []
         for a in alts:
-            rhs = " ".join(a["rhs"]) if a["rhs"] else "EMPTY"
+            syms = list(a["rhs"])
+            if srng and syms and srng.random() < 0.5:
+                for _ in range(srng.choice([1, 1, 2])):
+                    syms.insert(srng.randint(0, len(syms)), "EMPTY")
+            rhs = " ".join(syms) if syms else "EMPTY"
             if a.get("meta"):
                 rhs += " {" + a["meta"] + "}"
             parts.append(rhs)
